@@ -166,7 +166,8 @@ pub fn generic_alphabet() -> Vec<Pres> {
 	fn dur(a: &'static str, b: &'static str, c: &'static str) -> Vec<(&'static str, Pres)> {
 		vec![(a, Pres::U32(1)), (b, Pres::U32(2)), (c, Pres::U32(3))]
 	}
-	for (split, hint_delta) in [(false, 0i64), (true, 0), (false, 1), (false, -1)] {
+	// (hint_delta 99 stands for "no length hint")
+	for (split, hint_delta) in [(false, 0i64), (true, 0), (false, 1), (false, -1), (true, 1), (true, -1), (true, -2), (false, 99), (true, 99)] {
 		for entries in [
 			vec![],
 			vec![("a", Pres::I32(1))],
@@ -175,6 +176,7 @@ pub fn generic_alphabet() -> Vec<Pres> {
 			vec![("a", Pres::I32(1)), ("b", Pres::str("s")), ("c", Pres::I32(2))],
 			vec![("a", Pres::I32(1)), ("a", Pres::I32(2)), ("b", Pres::str("s"))],
 			vec![("k", Pres::I64(5)), ("", Pres::I64(-5))],
+			vec![("k", Pres::I64(5)), ("", Pres::I64(-5)), ("clé", Pres::I64(64))],
 			dur("months", "days", "milliseconds"),
 			dur("days", "milliseconds", "months"),
 			dur("months", "days", "seconds"),
@@ -187,7 +189,7 @@ pub fn generic_alphabet() -> Vec<Pres> {
 			}
 			let mut m = Pres::map(entries);
 			if let Pres::Map { len, split: s, .. } = &mut m {
-				*len = Some(n as usize);
+				*len = if hint_delta == 99 { None } else { Some(n as usize) };
 				*s = split;
 			}
 			a.push(m);
